@@ -21,6 +21,11 @@ BINOPS = [("+", "O_ADD"), ("-", "O_SUB"), ("*", "O_MUL"), ("/", "O_DIV"), ("%", 
           ("==", "O_EQ"), ("!=", "O_NE"), ("&&", "O_LAND"), ("||", "O_LOR")]
 ASSIGNOPS = BINOPS[:10]
 UNOPS = [("-", "O_NEG"), ("~", "O_NOT"), ("!", "O_LNOT"), ("+", "O_POS")]
+# bit-field operands (layer E): pseudo-types 9.. ; (member name, declaration, width, signed?, promoted type per C11 6.3.1.1p2)
+BF = [("u1", "unsigned", 1, 0, 3), ("u3", "unsigned", 3, 0, 3), ("u16", "unsigned", 16, 0, 3), ("u31", "unsigned", 31, 0, 3),
+      ("u32", "unsigned", 32, 0, 7), ("i1", "signed int", 1, 1, 3), ("i5", "signed int", 5, 1, 3), ("i31", "signed int", 31, 1, 3),
+      ("i32", "signed int", 32, 1, 3), ("b1", "_Bool", 1, 0, 3)]
+NT = 9 + len(BF)
 GENERIC = "_Bool:0, char:1, short:2, int:3, long:4, unsigned char:5, unsigned short:6, unsigned int:7, unsigned long:8, default:99"
 
 
@@ -28,7 +33,9 @@ GENERIC = "_Bool:0, char:1, short:2, int:3, long:4, unsigned char:5, unsigned sh
 def slot(i, t): return ("slot", i, t)
 def text(n):
     k = n[0]
-    if k == "slot": return "FN(S%d_%s)" % (n[1], TN[n[2]])
+    if k == "slot":
+        if n[2] >= 9: return "FN(BF%d).%s" % (n[1], BF[n[2] - 9][0])
+        return "FN(S%d_%s)" % (n[1], TN[n[2]])
     if k == "const": return n[3]
     if k == "bin": return "(%s %s %s)" % (text(n[2]), n[1][0], text(n[3]))
     if k == "un": return "(%s %s)" % (n[1][0], text(n[2]))
@@ -47,7 +54,7 @@ def emit_model(n, out):
     def node(kk, a=0, b=0, l=-1, r=-1, c=-1):
         out.append("{%s,%s,%s,%d,%d,%d}" % (kk, a, b, l, r, c))
         return len(out) - 1
-    if k == "slot": return node("K_SLOT", n[1], n[2])
+    if k == "slot": return node("K_SLOT", n[1], BF[n[2] - 9][4] if n[2] >= 9 else n[2])
     if k == "const": return node("K_CONST", n[1], n[2])
     if k == "bin":
         l = emit_model(n[2], out); r = emit_model(n[3], out); return node("K_BIN", n[1][1], 0, l, r)
@@ -125,6 +132,20 @@ def gen_cases(tier):
             # same on a local copy (automatic storage)
             cases.append(Case("B/incdec-local/%s/%s" % (op[2:].lower(), TN[d]), ("incdec", op, x), [d], final=0, typed=False,
                               body="%s d = %s; long r = (long)%s; %s = d; return r;" % (TYPES[d], X, text(("incdec", op, ("const", 0, d, "d"))), X)))
+    # Layer E: bit-field operands are promoted by their width (6.3.1.1p2): unsigned:w with w < 32 and every signed/_Bool field -> int
+    for k in range(len(BF)):
+        b = 9 + k
+        for op in BINOPS:
+            for t in T:
+                cases.append(Case("E/bf-op/%s/%s,%s" % (op[0], tname(b), TN[t]), ("bin", op, slot(0, b), slot(1, t)), [b, t], grid="small"))
+                cases.append(Case("E/op-bf/%s/%s,%s" % (op[0], TN[t], tname(b)), ("bin", op, slot(0, t), slot(1, b)), [t, b], grid="small"))
+            for k2 in range(len(BF)):
+                cases.append(Case("E/bf-bf/%s/%s,%s" % (op[0], tname(b), tname(9 + k2)), ("bin", op, slot(0, b), slot(1, 9 + k2)), [b, 9 + k2], grid="small"))
+        for op in UNOPS:
+            cases.append(Case("E/un/%s/%s" % (op[0], tname(b)), ("un", op, slot(0, b)), [b]))
+        for d in T:
+            cases.append(Case("E/cast/%s<-%s" % (TN[d], tname(b)), ("cast", d, slot(0, b)), [b]))
+            cases.append(Case("E/cond/%s,%s" % (tname(b), TN[d]), ("cond", slot(2, 3), slot(0, b), slot(1, d)), [b, d, 3], grid="cond"))
     # Layer D: pointer arithmetic / difference / comparison; element sizes 1..24, integer operand of every type
     MUL, ADD, SUB = BINOPS[2], BINOPS[0], BINOPS[1]
     def scaled(sl, sz): return ("bin", MUL, ("cast", 4, sl), ("const", sz, 4, str(sz)))
@@ -193,7 +214,16 @@ def gen_cases(tier):
 ELEM = [1, 2, 3, 4, 8, 12, 24]
 
 
+def tname(t):
+    return TN[t] if t < 9 else "bf:" + BF[t - 9][0]
+
+
 def grid_values(t, kind):
+    if t >= 9:
+        name, decl, w, sg, prom = BF[t - 9]
+        lo, hi = (-(1 << (w - 1)), (1 << (w - 1)) - 1) if sg else (0, (1 << w) - 1)
+        base = [0, 1, 2, 3, 4, 5, 7, 15, 16, 31, 127, 128, 255, 32767, 32768, 65535, lo, lo + 1, hi, hi - 1, hi // 2, -1, -2, -16]
+        return sorted(set(v for v in base if lo <= v <= hi))
     lo = 0 if UNS[t] else -(1 << (SIZE[t] * 8 - 1))
     hi = 1 if t == 0 else ((1 << (SIZE[t] * 8)) - 1 if UNS[t] else (1 << (SIZE[t] * 8 - 1)) - 1)
     if kind == "ptr":
@@ -232,6 +262,8 @@ def build_batch(bidx, cases):
         for t in range(9):
             u.append("%s FN(S%d_%s);" % (TYPES[t], s, TN[t]))
     u.append("enum { FN(E_NEG) = -5, FN(E_MAX) = 2147483647 };")
+    u.append("struct FN(BFS) { %s };" % " ".join("%s %s:%d;" % (d, n, w) for n, d, w, sg, pr in BF))
+    u.append("struct FN(BFS) FN(BF0), FN(BF1);")
     u.append("char FN(arena)[16384];")
     for sz in ELEM:
         u.append("typedef struct { char c[%d]; } E%d;" % (sz, sz))
@@ -256,18 +288,22 @@ def build_batch(bidx, cases):
         for s in range(3):
             for t in range(9):
                 d.append("extern %s %sS%d_%s;" % (TYPES[t], pfx, s, TN[t]))
+        d.append("struct %sBFS { %s }; extern struct %sBFS %sBF0, %sBF1;" % (pfx, " ".join("%s %s:%d;" % (dd, n, w) for n, dd, w, sg, pr in BF), pfx, pfx, pfx))
         d.append("extern int %stypes[], %ssizes[];" % (pfx, pfx))
         for i in range(len(cases)):
             d.append("long %sf%d(void);" % (pfx, i))
-    d.append("static void set_slot(int s, int t, long v) { switch (s * 9 + t) {")
+    d.append("static void set_slot(int s, int t, long v) { switch (s * %d + t) {" % NT)
     for s in range(3):
         for t in range(9):
-            d.append("case %d: cc_S%d_%s = (%s)v; ref_S%d_%s = (%s)v; break;" % (s * 9 + t, s, TN[t], TYPES[t], s, TN[t], TYPES[t]))
+            d.append("case %d: cc_S%d_%s = (%s)v; ref_S%d_%s = (%s)v; break;" % (s * NT + t, s, TN[t], TYPES[t], s, TN[t], TYPES[t]))
+        if s < 2:
+            for k, (n, dd, w, sg, pr) in enumerate(BF):
+                d.append("case %d: cc_BF%d.%s = v; ref_BF%d.%s = v; break;" % (s * NT + 9 + k, s, n, s, n))
     d.append("} }")
-    d.append("static long get_slot(int cc, int s, int t) { switch (s * 9 + t) {")
+    d.append("static long get_slot(int cc, int s, int t) { switch (s * %d + t) {" % NT)
     for s in range(3):
         for t in range(9):
-            d.append("case %d: return cc ? (long)cc_S%d_%s : (long)ref_S%d_%s;" % (s * 9 + t, s, TN[t], s, TN[t]))
+            d.append("case %d: return cc ? (long)cc_S%d_%s : (long)ref_S%d_%s;" % (s * NT + t, s, TN[t], s, TN[t]))
     d.append("} return 0; }")
     nodes = []
     rows = []
